@@ -402,3 +402,129 @@ def eval_outs(outs, asg):
     if v is None:
         return None
     return ("value", v)
+
+
+# ----------------------------------------------------------------------------------------------
+# recognising a comparison written as control flow: "compare word j1; if different return its order;
+# else word j2; ...; Equal"
+# ----------------------------------------------------------------------------------------------
+def lex_order(outs, a_words, b_words, unwrap_some=False):
+    """-> list of word indices in the order they are compared (every word once), or None"""
+    T = len(a_words)
+    if unwrap_some:
+        from .absint import Outcome, OPTION
+        outs2 = []
+        for o in outs:
+            if o.kind == "return" and isinstance(o.value, Agg) and o.value.key == OPTION and o.value.variant == 1:
+                outs2.append(Outcome("return", o.state, o.pc, o.value.fields[0]))
+            else:
+                return None
+        outs = outs2
+    key_of = {}
+    for j in range(T):
+        cl = frozenset(x for x in (B.bxor(p, q) for p, q in zip(a_words[j].all_bits(), b_words[j].all_bits())) if x != ZERO)
+        key_of[cl] = j
+    from .absint import mk_cs
+    eqbit = {}
+    for j in range(T):
+        e = mk_cs([B.bxor(p, q) for p, q in zip(a_words[j].all_bits(), b_words[j].all_bits())])
+        if isinstance(e, W) and e.val is None:
+            eqbit[e.bits[0]] = ("eq", j)
+            eqbit[B.bnot(e.bits[0])] = ("ne", j)
+    bits_a = {tuple(w.all_bits()): j for j, w in enumerate(a_words)}
+    bits_b = {tuple(w.all_bits()): j for j, w in enumerate(b_words)}
+    chains = []
+    final_seen = False
+    for o in outs:
+        if o.kind != "return":
+            return None
+        conds = []
+        for c in o.pc:
+            if isinstance(c, W) and c.val is not None:
+                if not c.val:
+                    conds = None
+                    break
+                continue
+            if isinstance(c, CS) and not c.has_top() and frozenset(c.clauses) in key_of:
+                conds.append(("ne" if c.neg else "eq", key_of[frozenset(c.clauses)]))
+            elif isinstance(c, W) and c.val is None and c.bits[0] in eqbit:
+                conds.append(eqbit[c.bits[0]])
+            else:
+                return None
+        if conds is None:
+            continue
+        v = o.value
+        if isinstance(v, Agg) and v.key == "std::cmp::Ordering":
+            if v.variant != 1 or any(k != "eq" for k, _ in conds) or sorted(j for _, j in conds) != list(range(T)):
+                return None
+            final_seen = True
+            continue
+        if not (isinstance(v, Opaque) and v.kind == "lexcmp" and len(v.data[0]) == 1 and len(v.data[1]) == 1):
+            return None
+        ja = bits_a.get(tuple(v.data[0][0].all_bits()))
+        jb = bits_b.get(tuple(v.data[1][0].all_bits()))
+        if ja is None or ja != jb:
+            return None
+        if not conds or conds[-1] != ("ne", ja) or any(k != "eq" for k, _ in conds[:-1]):
+            return None
+        chains.append([j for _, j in conds])
+    if not final_seen or len(chains) != T:
+        return None
+    chains.sort(key=len)
+    order = chains[-1]
+    for k, ch in enumerate(chains):
+        if ch != order[: k + 1]:
+            return None
+    if sorted(order) != list(range(T)):
+        return None
+    return order
+
+
+_cmp_kernel_cache = {}
+
+
+def cmp_kernel_hook(facts):
+    """call hook: a local function (&[u64], &[u64]) -> Ordering that is written as control flow is analysed
+    once per slice length on symbolic words; when it is a lexicographic comparison in some block order it is
+    replaced by the summary lexcmp(blocks in that order).  Otherwise the call is interpreted as usual."""
+    def is_u64_slice(ty):
+        return ty["k"] == "ref" and not ty["mut"] and ty["t"]["k"] == "slice" and ty["t"]["t"].get("w") == 64
+
+    def hook(interp, body, args, st, pc):
+        sig = body.get("sig")
+        if not sig or len(sig["inputs"]) != 2 or not all(is_u64_slice(x) for x in sig["inputs"]) or sig["output"].get("path") != "std::cmp::Ordering":
+            return None
+        try:
+            ea, eb = list(interp.slice_elems(st, args[0])), list(interp.slice_elems(st, args[1]))
+        except Undecided:
+            return None
+        if len(ea) != len(eb) or not all(isinstance(x, W) for x in ea + eb):
+            return None
+        if all(x.val is not None for x in ea + eb):
+            return None
+        L = len(ea)
+        key = (id(facts), body["key"], L)
+        if key not in _cmp_kernel_cache:
+            order = None
+            try:
+                it2 = Interp(facts)
+                st2 = State()
+                from .absint import new_cell, Arr
+                wa = [watoms(64, "cmpA%d" % j) for j in range(L)]
+                wb = [watoms(64, "cmpB%d" % j) for j in range(L)]
+                ca, cb = new_cell(), new_cell()
+                st2.mem[ca], st2.mem[cb] = Arr(wa), Arr(wb)
+                outs = it2.call_body(body, [Ptr(ca, (), (0, L)), Ptr(cb, (), (0, L))], st2, {})
+                rets = returns(outs)
+                if len(rets) == 1 and not panics(outs):
+                    order = "native"
+                elif len(rets) > 1 and not panics(outs):
+                    order = lex_order(outs, wa, wb)
+            except Undecided:
+                order = None
+            _cmp_kernel_cache[key] = order
+        order = _cmp_kernel_cache[key]
+        if order is None or order == "native":
+            return None
+        return interp.ret(st, pc, Opaque("lexcmp", (tuple(ea[j] for j in order), tuple(eb[j] for j in order))))
+    return hook
